@@ -76,7 +76,7 @@ def histories(draw):
                     "op": st.sampled_from(["search", "search", "search", "call", "update_from_tree", "new_object"]),
                     "variant": st.sampled_from(["same", "same", "perm_in", "perm_out", "resize", "move", "out_change", "swap_labels", "rename", "add_scalar"]),
                     "vk": st.integers(0, 20),
-                    "objmode": st.sampled_from(["shared", "fresh"]),
+                    "objmode": st.sampled_from(["shared", "fresh", "inplace"]),
                     "obj": st.integers(0, 2),
                     "overwrite": st.sampled_from([False, False, False, True, "improved"]),
                     "cache_only": st.sampled_from([False, False, False, True]),
@@ -142,6 +142,11 @@ def label_name(ix):
     return "ix_" + ix  # multi-character labels: not interned by CPython
 
 
+# containers that are handed to the optimizer again and again and edited in
+# place between queries (objmode 'inplace'): identity says nothing about content
+_INPLACE = {"inputs": [], "output": [], "sizes": {}}
+
+
 def make_query(net, variant, k, objmode):
     inputs = [list(t) for t in net["inputs"]]
     output = list(net["output"])
@@ -195,7 +200,7 @@ def make_query(net, variant, k, objmode):
             inputs[src[k % len(src)]].remove(ix)
             inputs[dst[k % len(dst)]].append(ix)
     # build label objects
-    if objmode == "shared":
+    if objmode in ("shared", "inplace"):
         objs = {ix: label_name(ix) for ix in sizes}
         get = objs.__getitem__
     else:
@@ -205,6 +210,14 @@ def make_query(net, variant, k, objmode):
     q_inputs = tuple(tuple(get(ix) for ix in t) for t in inputs)
     q_output = tuple(get(ix) for ix in output)
     q_sizes = {get(ix): d for ix, d in sizes.items()}
+    if objmode == "inplace":
+        # the very same list / dict objects as last time, with new content
+        c = _INPLACE
+        c["inputs"][:] = q_inputs
+        c["output"][:] = q_output
+        c["sizes"].clear()
+        c["sizes"].update(q_sizes)
+        return c["inputs"], c["output"], c["sizes"]
     return q_inputs, q_output, q_sizes
 
 
@@ -311,6 +324,8 @@ def run_case(spec, sub=None):
             fpb = fingerprint_b(*q)
             queries_seen.add(fp)
             inputs, output, sizes = q
+            # what was asked, frozen (the containers may be edited later)
+            asked_inputs, asked_output, asked_sizes = tuple(map(tuple, inputs)), tuple(output), dict(sizes)
 
             if op["op"] == "update_from_tree" and spec["kind"] != "hyper":
                 # update_from_tree stores the tree's own objective score while
@@ -389,9 +404,9 @@ def run_case(spec, sub=None):
 
             if op["op"] == "search":
                 tree = res
-                check_tree(tree, inputs, output, sizes, viol, what)
+                check_tree(tree, asked_inputs, asked_output, asked_sizes, viol, what)
                 if not viol and (
-                    tuple(map(tuple, tree.inputs)) != inputs or tuple(tree.output) != output
+                    tuple(map(tuple, tree.inputs)) != asked_inputs or tuple(tree.output) != asked_output
                 ):
                     viol.append(f"{what}: returned tree is not over the queried inputs/output")
                 if not viol and spec["kind"] == "hyper":
